@@ -138,3 +138,14 @@ Theorem C03_body_round :
                  (add_defined unsafe (Seq (Call r :: xs)) (push f0)) st = (Fail false, st1)).
 Proof. exact body_round. Qed.
 Print Assumptions C03_body_round.
+
+(* the hypotheses of the three theorems above are met in a real parse (e = e '+' 'a' | 'a' on "a+a+a", the state in which the seed
+   for (0, e) is 'a' ending at 1): the recursive alternative collects ['a'; '+'; 'a'], the seed first *)
+Example C03_left_operand_witness :
+  lookup (results w_seed_state) (0, 0) = Some (OOk l_a 1) /\
+  exists f' st',
+    feval l_text (fun _ _ => None) (fun _ => false) (fun _ => false) (fun c => c) (fun c => c) l_ic [] l_rules l_ec
+          (fun _ _ => ANone) (fun _ => 0) 10 (Seq [Call 0; Leaf (LTok [43%N]); Leaf (LTok [97%N])]) (newf 0) w_seed_state
+      = (Ok (VList false [l_a; l_plus; l_a]) f', st')
+    /\ items (cst f') = [l_a; l_plus; l_a].
+Proof. exact (proj2 left_operand_witness). Qed.
